@@ -417,14 +417,24 @@ class UserActions(object):
     table = self._engine.tables[table_id]
     next_row_id = 1 if replace else table.next_row_id()
 
+    # Row IDs given explicitly must be usable as given: positive and distinct. Automatic ones are
+    # picked above all of them, so that they can't collide with an explicit ID later in the list.
+    explicit_row_ids = [r for r in row_ids if r is not None and r >= 0]
+    if 0 in explicit_row_ids:
+      raise ValueError("Row ID 0 is not valid")
+    if len(set(explicit_row_ids)) != len(explicit_row_ids):
+      raise ValueError("Row IDs must be unique")
+    if explicit_row_ids:
+      next_row_id = max(next_row_id, max(explicit_row_ids) + 1)
+
     # Make a copy of row_ids and fill in those set to None.
     filled_row_ids = row_ids[:]
     for i, row_id in enumerate(filled_row_ids):
       if row_id is None or row_id < 0:
-        filled_row_ids[i] = row_id = next_row_id
+        filled_row_ids[i] = next_row_id
+        next_row_id += 1
       elif row_id > 1000000:
         raise ValueError("Row ID too high")
-      next_row_id = max(next_row_id, row_id) + 1
 
     # Whenever we add new rows, remember the mapping from any negative row_ids to their final
     # values. This allows the negative_row_ids to be used as Reference values in subsequent
